@@ -205,9 +205,10 @@ def check_solver(desc):
 CHECKS = {"solver": check_solver}
 
 
-def shards(tier):
+def shards(tier, seed=1):
     n = 1 if tier == "quick" else 8
-    return [{"check": "solver", "mesh": m, "examples": 60 * n, "budget_s": 150 * n} for m in range(3)]
+    meshes = [seed % 3, (seed + 1) % 3] if tier == "quick" else [0, 1, 2]
+    return [{"check": "solver", "mesh": m, "examples": 70 * n, "budget_s": 300 * n} for m in meshes]
 
 
 def strategy(spec):
